@@ -97,6 +97,9 @@ func (h *HistGen) Doc(id string) map[string]interface{} {
 	if h.G.pick(12) == 0 {
 		m["arr"] = []interface{}{h.val(), h.val()}
 	}
+	if id != "" && h.G.pick(10) == 0 {
+		m["y"] = id // a field holding the document's own id (criteria on _id with a reference to it select the document)
+	}
 	return m
 }
 
@@ -124,6 +127,11 @@ var likePatterns = []string{".*", "^a", "a$", "^ab$", "b", "(", "^$", "A"}
 
 func (h *HistGen) Leaf() J {
 	f := hx(h.field())
+	if h.G.pick(40) == 0 {
+		// _id compared with a field reference (either spelling) or with a stored id
+		ops := []interface{}{J{"lit": encValue("$y")}, J{"ref": hx("y")}, J{"lit": encValue(h.someId())}}
+		return J{"cmp": []interface{}{[]string{"eq", "eq", "ge", "le"}[h.G.pick(4)], hx("_id"), ops[h.G.pick(3)]}}
+	}
 	switch h.G.pick(14) {
 	case 0:
 		return J{"exists": f}
@@ -207,7 +215,7 @@ func (h *HistGen) Query(coll string) J {
 	}
 	switch h.G.pick(10) {
 	case 0, 1, 2:
-		dirs := []int{1, -1, 0, 5, -3}
+		dirs := []int{1, -1, 0, 5, -3, math.MinInt64, math.MaxInt64, 1 << 62, -(1 << 62)}
 		q["sort"] = []interface{}{[]interface{}{hx(h.field()), dirs[h.G.pick(len(dirs))]}}
 	case 3:
 		q["sort"] = []interface{}{[]interface{}{hx(h.field()), 1 - 2*h.G.pick(2)}, []interface{}{hx(h.field()), 1 - 2*h.G.pick(2)}}
@@ -283,6 +291,7 @@ type HistCfg struct {
 	ManyColls  bool // catalog-heavy: more collections, more create/drop
 	IndexHeavy bool // more index create/drop
 	NoFresh    bool // every inserted document carries its _id (results are then comparable across runs)
+	Faults     bool // some operations are hit by a store fault at a random call (begin, get, set, delete, item, commit); the history goes on
 }
 
 func opLine(name string, kv J) J {
@@ -410,6 +419,10 @@ func (h *HistGen) History(cfg HistCfg) []J {
 			default:
 				ln = opLine("count", J{"q": J{"coll": hx(c)}})
 			}
+		}
+		if cfg.Faults && h.G.pick(4) == 0 {
+			// the k-th store call of this operation fails (nothing fires when the operation makes fewer calls)
+			ln["fault"] = []int{0, 1, 2, 3, 4, 5, 6, 8, 10, 14, 20, 30}[h.G.pick(12)]
 		}
 		lines = append(lines, ln)
 		if cfg.Dumps {
